@@ -18,6 +18,7 @@ import (
 	"go.6river.tech/mmmbbb/ent/subscription"
 	"go.6river.tech/mmmbbb/grpc/pubsubpb"
 	"go.6river.tech/mmmbbb/internal/sqltypes"
+	"go.6river.tech/mmmbbb/services"
 	"google.golang.org/grpc/codes"
 	"google.golang.org/grpc/status"
 )
@@ -623,6 +624,17 @@ func (w *World) execInner(op Op, res *Result) string {
 			a, table = actions.NewPruneDeletedSubscriptions(pp), "`subscriptions`"
 		case "prune_deleted_topics":
 			a, table = actions.NewPruneDeletedTopics(pp), "`topics`"
+		}
+		// the action the *registered* maintenance service of that name runs (the deployed wiring)
+		svcName := map[string]string{"expire_subs": "delete-expired-subscriptions", "prune_completed_deliveries": "prune-completed-deliveries",
+			"prune_expired_deliveries": "prune-expired-deliveries", "prune_completed_messages": "prune-completed-messages",
+			"prune_deleted_sub_deliveries": "prune-deleted-subscription-deliveries", "prune_deleted_subs": "prune-deleted-subscriptions",
+			"prune_deleted_topics": "prune-deleted-topics"}[op.K]
+		if reg := services.PruneActionForVerif(svcName, pp); reg != nil {
+			a = reg
+		} else {
+			res.Err, res.Resp = fmt.Errorf("no maintenance service %q is registered", svcName), "E:unregistered"
+			return hdr(op.K) + fmt.Sprintf(" max=%d victims=", op.Max)
 		}
 		err := w.run(a)
 		res.Err, res.Resp = err, errClass(err)
